@@ -1,6 +1,9 @@
 package harness
 
 import (
+	"net"
+
+	"google.golang.org/grpc/peer"
 	"context"
 	"encoding/json"
 	"errors"
@@ -27,6 +30,7 @@ type txnCfg struct {
 	Cancel   string `json:"cancel"`   // none | before | in-cond | between | in-then | in-rollback | after
 	TTLMs    int    `json:"ttl_ms"`
 	StepMs   int    `json:"step_ms"` // virtual time each step takes (may exceed the ttl)
+	Peer     bool   `json:"peer,omitempty"` // the caller's context is that of a gRPC request (carries peer info)
 }
 
 var txnForms = []string{"txn", "pcr"}
@@ -61,6 +65,7 @@ func (txnH) Generate(property string, seed uint64, tier string) *Case {
 	if seed/TxnSpace%3 == 2 {
 		cfg.StepMs = 1500
 	}
+	cfg.Peer = seed/(TxnSpace*3)%2 == 1
 	return &Case{Plan: simrt.Plan{Policy: "fifo", CrashAt: -1}, Cfg: mustJSON(cfg), Ops: []json.RawMessage{mustJSON(map[string]int{"index": int(seed % TxnSpace)})}}
 }
 
@@ -90,7 +95,11 @@ func (txnH) Execute(c *Case, res *Result) {
 	}
 	errCond, errThen, errRoll := errors.New("cond failed"), errors.New("then failed"), errors.New("rollback failed")
 	sim.Go(func() {
-		ctx, cancel := context.WithCancel(context.Background())
+		base := context.Background()
+		if cfg.Peer {
+			base = peer.NewContext(base, &peer.Peer{Addr: &net.TCPAddr{IP: net.IPv4(10, 0, 0, 9), Port: 4711}})
+		}
+		ctx, cancel := context.WithCancel(base)
 		defer cancel()
 		cancelled := false
 		at := func(p string) {
